@@ -1,1 +1,7 @@
-pub fn hello() {}
+//! caoverif: runtime-monitoring harness for cao-lang (see /verif/DESIGN.md)
+pub mod prng;
+pub mod runner;
+
+pub mod e_hashmap;
+pub mod e_handletable;
+pub mod e_stacks;
